@@ -113,7 +113,10 @@ func (p *parser) doExpression(rbp int) *token {
 	t := p.Token
 	p.Next()
 	left := getSymbol(t).Nud(p, t)
-	for rbp < getSymbol(p.Token).Lbp && !slices.Contains(p.mask, p.Token.Symbol) {
+	for n := 0; rbp < getSymbol(p.Token).Lbp && !slices.Contains(p.mask, p.Token.Symbol); n++ {
+		if n > maxParseDepth { // 1+1+1+...: every operator puts the tree so far one level deeper, and Copy, the compiler and the dumps recurse over it
+			panicf("nested too deeply")
+		}
 		t = p.Token
 		p.Next()
 		left = getSymbol(t).Led(p, t, left)
